@@ -214,8 +214,9 @@ pub open spec fn sop_ok(e: EncView, op: SOp) -> bool { match op {
     SOp::Sent { label, w, e2 } => label_step_ok(e, label, w, e2),
     SOp::Unchanged => true,
     SOp::Reset { e2 } => e2 == (EncView { last: None, ..e }),
-    SOp::Disable { e2 } => !e2.activated && e2.max == 0 && e2.cur == 0,
-    SOp::Enable { e2 } => e2.activated && e2.cur == 0 && e2.last.is_none() && 0 <= e2.max,
+    // only what the properties need: disable disables; (re-)enabling forgets the label; the counter stays within its bound (inv())
+    SOp::Disable { e2 } => !e2.activated && 0 <= e2.cur && 0 <= e2.max && (e2.max > 0 ==> e2.cur <= e2.max),
+    SOp::Enable { e2 } => e2.last.is_none() && 0 <= e2.cur && 0 <= e2.max && (e2.max > 0 ==> e2.cur <= e2.max),
 } }
 pub open spec fn sop_next(e: EncView, op: SOp) -> EncView { match op {
     SOp::Sent { e2, .. } => e2, SOp::Unchanged => e, SOp::Reset { e2 } => e2, SOp::Disable { e2 } => e2, SOp::Enable { e2 } => e2 } }
